@@ -63,13 +63,15 @@ CHECKS = {
             "changes under every substitution and every C/G/T indel, and decode with the original check rejects; tied to "
             "dsw.set_vt / decode by the correspondence check incl. every single edit of sampled walks.",
             "Coq proof (sum mod 4 argument, radix rendering) + extraction-based correspondence", "5 C07"),
-    "C08": ("Theorems for every graph that graph generation can return (legal, vertex-induced, k >= 1), every walk and EVERY single "
-            "substitution / insertion / deletion at an interior position in [k, n-2k): the edit is detected exactly when the "
-            "corrupted strand is no longer a walk, exactly once, and the original walk is among the candidates (check absent or "
-            "the check of the original); ~1150 lines of Coq following the scan loop, the look-back window and the "
-            "recombination.  PARTIAL: the induction over several separated edits is not proved; that clause is decided by "
-            "correspondence + oracle on sampled admissible edit sets of size 2..4.",
-            "Coq proof (state tracking on vertex-induced de Bruijn graphs, scan-loop invariants) + extraction-based correspondence", "5 C08"),
+    "C08": ("Theorems for every graph that graph generation can return (legal, vertex-induced, k >= 1) and every walk: EVERY single "
+            "substitution / insertion / deletion at an interior position in [k, n-2k) is detected exactly when the corrupted "
+            "strand is no longer a walk, exactly once, and the original walk is among the candidates; and for EVERY set of edits "
+            "pairwise at least 3k+2 apart there is at most one detection per edit and, whenever the detection count equals the "
+            "number of edits, the original walk is among the candidates (check absent or the check of the original); ~1750 "
+            "lines of Coq following the scan loop, the look-back window and the recombination.  Tied to dsw by the "
+            "correspondence check on every single edit of sampled walks, random admissible edit sets and twin-window edits.",
+            "Coq proof (state tracking on vertex-induced de Bruijn graphs, scan-loop invariants, induction over the edits) + "
+            "extraction-based correspondence", "5 C08"),
     "C09": ("Theorems: on a strand that is already a walk repair returns exactly that strand (or nothing if the supplied check "
             "disagrees) with zero detected errors, for every shaped accessor / option / heap limit; whenever repair returns, the "
             "candidate list is strictly increasing (sorted, duplicate-free) and every candidate reproduces the supplied check.",
